@@ -345,3 +345,18 @@ for n, w in (("c05_bc_a2_d3", "broadcast N=1 alphabet 2"), ("c05_mp_a1_d3", "mpm
 for n in ("c04_bc_shared_inclone", "c04_bc_streams_inclone", "c04_bc_view_inview", "c04_mp_view_inview", "c04_bc_shared_all", "c05_mp_shared_all",
           "c06_bc_sibdrop_inclone", "c18_bc_shared_inclone_mw", "c17_teardown_mp", "c17_teardown_bc_stream", "c17_teardown_bc_clone"):
     HARNESSES[n]["teardown"] = True
+H("c16_wq_drop_seq", M, "C16", ["C16", "C17"], "thorough",
+  "whole queue, REAL memory manager, sequential: 19 pre-loaded retirements, drop of a stream's last handle, stream churn, announces, reclamation cycle", "sequential",
+  rules=MEMRULES, fp_restrict=FP, builtin_oracle=True, unwind=6, mem_gb=24, teardown=True)
+H("c16_wq_drop_ptrwin", M, "C16", ["C16", "C11"], "thorough",
+  "whole queue, REAL memory manager: drop of a stream's last handle preempted at every stream-list pointer access and lock by up to 4 operations of the others (add_stream, try_recv, drop of the new stream, try_send) that retire the list it is walking, cross the reclamation threshold, announce and reclaim",
+  "19 pre-loaded retirements, window: pointer cells + locks, budget 4, up to 4 ops per site", rules=MEMRULES, fp_restrict=FP, builtin_oracle=True, unwind=6, mem_gb=24, teardown=True, timeout=3000)
+H("c18_mp_frozen_recv", T, "C18", ["C18", "C01", "C06"], "quick",
+  "mpmc: the consumer is frozen at a solver-chosen shared access of try_recv while one producer's try_send runs alone: bounded own steps, bounded retry loops",
+  "N=2, budget 1")
+H("c18_bc_frozen_send", T, "C18", ["C18", "C01", "C03", "C06"], "quick",
+  "broadcast shared stream: the producer is frozen at a solver-chosen shared access of try_send (e.g. slot claimed, not yet published) while one consumer's try_recv runs alone",
+  "N=2, prefix <=1/<=1, budget 1")
+H("c18_mp_frozen_send_mw", T, "C18", ["C18", "C01", "C03", "C06"], "quick",
+  "mpmc N=1 multi-writer: producer 0 is frozen at a solver-chosen shared access of try_send_multi (CAS claim loop) while producer 1's try_send or the consumer's try_recv runs alone",
+  "N=1, prefix <=1/<=1, budget 1")
